@@ -94,8 +94,25 @@ class World:
                 "base_dir": os.path.join(root, ef.get("dir", "m")),
                 "cursor": ef.get("lead", 0),
                 "tail": ef.get("tail", 0),
+                "always": ef.get("always", False),
                 "chunks": [],
             }
+        # pre-existing directories, links and plain files come first so that
+        # already-external data can be written through links
+        for d in case.get("pre_dirs", []):
+            os.makedirs(os.path.join(root, d), exist_ok=True)
+        for link, target in case.get("pre_symlinks", {}).items():
+            lp = os.path.join(root, link)
+            os.makedirs(os.path.dirname(lp), exist_ok=True)
+            os.symlink(target, lp)
+        for rel, content in case.get("pre_files", {}).items():
+            p = os.path.join(root, rel)
+            os.makedirs(os.path.dirname(p), exist_ok=True)
+            with open(p, "wb") as f:
+                f.write(bytes.fromhex(content) if isinstance(content, str) else bytes(content))
+            mode = case.get("pre_modes", {}).get(rel)
+            if mode is not None:
+                os.chmod(p, mode)
         self.tensor_objs: list = []
         self.payloads: list[bytes] = []
         for i, spec in enumerate(case["tensors"]):
@@ -113,18 +130,9 @@ class World:
             self.tensor_objs.append(t)
             self.payloads.append(payload)
         tensors.flush_ext_files(self.ext_files)
-        # pre-existing plain files
-        for rel, content in case.get("pre_files", {}).items():
-            p = os.path.join(root, rel)
-            os.makedirs(os.path.dirname(p), exist_ok=True)
-            with open(p, "wb") as f:
-                f.write(bytes.fromhex(content) if isinstance(content, str) else bytes(content))
-        for d in case.get("pre_dirs", []):
-            os.makedirs(os.path.join(root, d), exist_ok=True)
-        for link, target in case.get("pre_symlinks", {}).items():
-            lp = os.path.join(root, link)
-            os.makedirs(os.path.dirname(lp), exist_ok=True)
-            os.symlink(target, lp)
+        for key, ef in case.get("ext_files", {}).items():
+            if ef.get("mode") is not None and self.ext_files[key]["chunks"]:
+                os.chmod(os.path.join(self.ext_files[key]["base_dir"], ef["location"]), ef["mode"])
         self.model, self.init_values = self._build_model()
 
     def _build_model(self):
